@@ -356,6 +356,8 @@ def na_clone(d, history=None):
                 t1['local'] = t2['local']
     if history is not None:
         d2.history = list(history)
+    if hasattr(d, 'suspend_n'):
+        d2.suspend_n = dict(d.suspend_n)
     return d2
 
 
@@ -382,6 +384,34 @@ def stage_of(d, cid):
     for _k, l in aflat.stage_lists(d):
         if cid in l:
             out.update(l)
+    return out
+
+
+def strip_stragglers(items, cid, k, sibs):
+    """asyncio.gather lets the failed stage's other callbacks run on after the failure (the open finding
+    F-C07-gather-after-raise): their completions may land anywhere later, also inside later events. Drop the `done`
+    items of stage siblings that were still open when invocation k of `cid` raised — they are not judged here."""
+    out, opened, cnt, pending = [], {}, 0, None
+    for x in items:
+        if x[0] == 'call':
+            opened[x[2]] = opened.get(x[2], 0) + 1
+            if x[2] == cid:
+                if cnt == k and pending is None:
+                    pending = 'armed'
+                cnt += 1
+        elif x[0] == 'done':
+            c = x[1]
+            if pending == 'armed' and c == cid and x[2] == 1:
+                pending = dict((sb, opened.get(sb, 0)) for sb in sibs if sb != cid)
+                opened[c] = max(0, opened.get(c, 0) - 1)
+                out.append(x)
+                continue
+            if isinstance(pending, dict) and pending.get(c, 0) > 0:
+                pending[c] -= 1
+                opened[c] = max(0, opened.get(c, 0) - 1)
+                continue                        # a straggler of the failed stage
+            opened[c] = max(0, opened.get(c, 0) - 1)
+        out.append(x)
     return out
 
 
@@ -483,6 +513,13 @@ def na_judge(case):
         chosen = [c for c in calls if c[0] == case['pos']]
     else:
         chosen = calls if case.get('all') else rng.sample(calls, min(6, len(calls)))
+        if setup[3] and not case.get('all'):
+            # async stages are gathered: positions whose callback is NOT the first of its stage are the ones where
+            # siblings are in flight at the failure — always take up to three of them as well
+            later = [c for c in calls if any(c[1][2] in lst and lst.index(c[1][2]) > 0 for _sk, lst in aflat.stage_lists(base))]
+            for c in later[:3]:
+                if c not in chosen:
+                    chosen.append(c)
     out = []
     evs = [e for e, _ in base.events]
     npos = 0
@@ -498,6 +535,14 @@ def na_judge(case):
                 # (StopIteration only where callbacks are plain functions: a coroutine turns it into RuntimeError)
                 kind, nn = rng.choice([2, 6, 7, 7, 8, 9, 10] + ([] if setup[3] else [11, 11, 12])), 0
             d.script[(cid, k)] = ((), ('raise', kind, nn))
+            if setup[3] and rng.random() < 0.8:
+                # async stages are gathered: the callbacks listed BEFORE the failing one in its stage are still inside
+                # an await when it raises — the exception that reaches the caller must still be the one raised
+                for _sk, lst in aflat.stage_lists(d):
+                    if cid in lst:
+                        for sib in lst[:lst.index(cid)]:
+                            d.kinds[sib] = aflat.K_SUSPEND
+                            d.__dict__.setdefault('suspend_n', {})[sib] = rng.randint(1, 4)
             handlers = []
             if with_h:
                 hid = max(d.cb_slot) + 1
@@ -525,9 +570,20 @@ def na_judge(case):
                                    dict(info, caller_got='%s: %s' % (type(obj).__name__, str(obj)[:80]))))
             # survivor vs fresh
             cont = [(flat.TRIGGER, rng.choice(d.models), rng.choice(evs)) for _ in range(3)]
-            surv = na_run(na_clone(d, list(d.history) + cont), setup)
-            n0 = len(crash.items)
-            if surv.items[:n0] != crash.items:
+            # async, unqueued: the continuation ends with two triggers on one model issued concurrently from the caller's
+            # task (whatever the failed event left in the caller's context decides whether they see each other)
+            tail = ()
+            if setup[3] and not d.qmode and rng.random() < 0.6:
+                mm = rng.choice(d.models)
+                tail = ([(flat.TRIGGER, mm, rng.choice(evs)), (flat.TRIGGER, mm, rng.choice(evs))],)
+            ds = na_clone(d, list(d.history) + cont)
+            ds.concurrent_tail = tail
+            surv = na_run(ds, setup)
+            sibs = stage_of(d, cid) if setup[3] else set()
+            crash_items = strip_stragglers(crash.items, cid, k, sibs) if setup[3] else crash.items
+            surv_items = strip_stragglers(surv.items, cid, k, sibs) if setup[3] else surv.items
+            n0 = len(crash_items)
+            if surv_items[:n0] != crash_items:
                 fs.append(('crash-run-not-reproducible', info))
             else:
                 states = {mid: getattr(mo, 'state') for mid, mo in crash.model_objs.items() if 'state' in mo.__dict__}
@@ -540,8 +596,10 @@ def na_judge(case):
                     r.next_tag = crash.next_tag
                     r.tag_event = dict(crash.tag_event)
                 try:
-                    fresh = na_run(na_clone(d, cont), setup, prepare=place)
-                    a, b = surv.items[n0:], fresh.items
+                    df = na_clone(d, cont)
+                    df.concurrent_tail = tail
+                    fresh = na_run(df, setup, prepare=place)
+                    a, b = surv_items[n0:], fresh.items
                     if a != b or surv.final() != fresh.final():
                         kk = next((i for i, (x, y) in enumerate(zip(a, b)) if x != y), min(len(a), len(b)))
                         fs.append(('survivor-differs-from-fresh', dict(
